@@ -1,0 +1,165 @@
+//! Instrumented `RwLock` used only when the `verif-hooks` feature is enabled.
+//!
+//! It wraps `std::sync::RwLock` with the same surface the crate uses and
+//! reports every acquisition attempt, acquisition and release to an optional
+//! process-global observer.  With the feature disabled this file is not
+//! compiled and the crate uses `std::sync::RwLock` directly.
+
+use std::ops::{Deref, DerefMut};
+use std::panic::Location;
+use std::sync::atomic::{AtomicUsize, Ordering};
+
+/// The kind of lock event being reported.
+#[derive(Clone, Copy, Debug, Eq, PartialEq)]
+pub enum EventKind {
+    /// A shared acquisition is about to be attempted.
+    BeforeRead,
+    /// A shared acquisition succeeded.
+    AfterRead,
+    /// An exclusive acquisition is about to be attempted.
+    BeforeWrite,
+    /// An exclusive acquisition succeeded.
+    AfterWrite,
+    /// A shared guard was dropped.
+    ReleaseRead,
+    /// An exclusive guard was dropped.
+    ReleaseWrite,
+}
+
+/// A lock event.
+#[derive(Clone, Copy, Debug)]
+pub struct Event {
+    /// What happened.
+    pub kind: EventKind,
+    /// Identity of the lock (its address).
+    pub lock_id: usize,
+    /// Source location of the `read()`/`write()` call (for release events:
+    /// of the acquisition being released).
+    pub caller: &'static Location<'static>,
+}
+
+/// Observer callback type.
+pub type Observer = fn(&Event);
+
+static OBSERVER: AtomicUsize = AtomicUsize::new(0);
+
+/// Installs (or, with `None`, removes) the process-global observer.
+pub fn set_observer(observer: Option<Observer>) {
+    let value = match observer {
+        Some(f) => f as usize,
+        None => 0,
+    };
+    OBSERVER.store(value, Ordering::SeqCst);
+}
+
+fn notify(kind: EventKind, lock_id: usize, caller: &'static Location<'static>) {
+    let value = OBSERVER.load(Ordering::SeqCst);
+    if value != 0 {
+        // SAFETY-free: the value was produced from an `Observer` fn pointer.
+        let f: Observer = unsafe { std::mem::transmute::<usize, Observer>(value) };
+        f(&Event { kind, lock_id, caller });
+    }
+}
+
+/// Error returned when the underlying lock is poisoned.
+#[derive(Debug)]
+pub struct Poisoned;
+
+/// Instrumented reader-writer lock.
+pub struct RwLock<T> {
+    inner: std::sync::RwLock<T>,
+}
+
+impl<T> RwLock<T> {
+    /// Creates a new lock.
+    pub fn new(value: T) -> RwLock<T> {
+        RwLock { inner: std::sync::RwLock::new(value) }
+    }
+
+    fn id(&self) -> usize {
+        self as *const RwLock<T> as usize
+    }
+
+    /// Acquires shared access.
+    #[track_caller]
+    pub fn read(&self) -> Result<RwLockReadGuard<'_, T>, Poisoned> {
+        let caller = Location::caller();
+        let lock_id = self.id();
+        notify(EventKind::BeforeRead, lock_id, caller);
+        match self.inner.read() {
+            Ok(guard) => {
+                notify(EventKind::AfterRead, lock_id, caller);
+                Ok(RwLockReadGuard { guard: Some(guard), lock_id, caller })
+            }
+            Err(_) => Err(Poisoned),
+        }
+    }
+
+    /// Acquires exclusive access.
+    #[track_caller]
+    pub fn write(&self) -> Result<RwLockWriteGuard<'_, T>, Poisoned> {
+        let caller = Location::caller();
+        let lock_id = self.id();
+        notify(EventKind::BeforeWrite, lock_id, caller);
+        match self.inner.write() {
+            Ok(guard) => {
+                notify(EventKind::AfterWrite, lock_id, caller);
+                Ok(RwLockWriteGuard { guard: Some(guard), lock_id, caller })
+            }
+            Err(_) => Err(Poisoned),
+        }
+    }
+
+    /// Consumes the lock, returning the protected value.
+    pub fn into_inner(self) -> Result<T, Poisoned> {
+        self.inner.into_inner().map_err(|_| Poisoned)
+    }
+}
+
+/// Shared guard.
+pub struct RwLockReadGuard<'a, T> {
+    guard: Option<std::sync::RwLockReadGuard<'a, T>>,
+    lock_id: usize,
+    caller: &'static Location<'static>,
+}
+
+impl<T> Deref for RwLockReadGuard<'_, T> {
+    type Target = T;
+    fn deref(&self) -> &T {
+        self.guard.as_ref().unwrap()
+    }
+}
+
+impl<T> Drop for RwLockReadGuard<'_, T> {
+    fn drop(&mut self) {
+        self.guard.take();
+        notify(EventKind::ReleaseRead, self.lock_id, self.caller);
+    }
+}
+
+/// Exclusive guard.
+pub struct RwLockWriteGuard<'a, T> {
+    guard: Option<std::sync::RwLockWriteGuard<'a, T>>,
+    lock_id: usize,
+    caller: &'static Location<'static>,
+}
+
+impl<T> Deref for RwLockWriteGuard<'_, T> {
+    type Target = T;
+    fn deref(&self) -> &T {
+        self.guard.as_ref().unwrap()
+    }
+}
+
+impl<T> DerefMut for RwLockWriteGuard<'_, T> {
+    fn deref_mut(&mut self) -> &mut T {
+        self.guard.as_mut().unwrap()
+    }
+}
+
+impl<T> Drop for RwLockWriteGuard<'_, T> {
+    fn drop(&mut self) {
+        self.guard.take();
+        notify(EventKind::ReleaseWrite, self.lock_id, self.caller);
+    }
+}
